@@ -1,0 +1,15 @@
+//go:build verif
+
+// Contracts for govc (contract-based deductive verification, /verif). Comment-only file:
+// it is compiled only under the build tag "verif" and contains no code.
+
+package route_rule_conf
+
+// result of the basic (host, path) rule tree for a request
+//@ spec basicName(t *BasicRouteRuleTree, host string, path string) string := abstract
+//@ spec basicFound(t *BasicRouteRuleTree, host string, path string) bool := abstract
+
+//@ func (*BasicRouteRuleTree).Get
+//@   trusted lookups in the basic rule tree write nothing; the result is a function of the tree, host and path (the tree's own precedence rules are property C11)
+//@   modifies nothing
+//@   ensures result0 == basicName(r, host, path) && result1 == basicFound(r, host, path)
